@@ -75,6 +75,7 @@ def encode_bytes(spec, S, T, stats):
     """('refused', exc) | ('bytes', data) - the real encoder + send_msg's conversion."""
     msg, sess, raw = gen.build(spec, S, T)
     stats["encode_calls"] += 1
+    c01._prime(sess)  # the shared Codec first serves another session with the same key and other CompIDs
     try:
         frame = c01.codec().encode(msg, sess, raw_seq_num=True) if raw else c01.codec().encode(msg, sess)
     except Exception as e:  # noqa
